@@ -572,7 +572,10 @@ func CheckC13(h *History, blk *BlockRecord) []Violation {
 		if surplus.IsNegative() {
 			out = append(out, Violation{Sig: "C13/insolvent", Detail: fmt.Sprintf("reward denom %s: module balance=%s < credited-unclaimed=%s + unfunded incentive remainder=%s (shortfall %s; height %d; %s)", d, bal, p, rem, surplus.Neg(), s.Height, blockSummary(blk))})
 		} else if prevSurplus != nil {
-			if ps, ok := prevSurplus[d]; ok && surplus.LT(ps) {
+			// the bookkeeping runs on 18-digit fixed-point numbers and every checkpoint (deposit, withdrawal,
+			// claim) may round the last digit either way: 1e-9 of a base unit per block is far below anything a
+			// claim can ever pay (claims truncate to whole units) and far above that rounding
+			if ps, ok := prevSurplus[d]; ok && surplus.LT(ps.Sub(sdkmath.LegacyNewDecWithPrec(1, 9))) {
 				out = append(out, Violation{Sig: "C13/surplus-decreased", Detail: fmt.Sprintf("reward denom %s: balance−credited−incentives fell %s -> %s in one block (credited more than collected; height %d; %s)", d, ps, surplus, s.Height, blockSummary(blk))})
 			}
 		}
